@@ -9,8 +9,8 @@ from vlib import util as U
 
 RULE = ("Composite apertures: Hypothesis draws ring count, samples per segment (6..60), segment size, gap (incl. 0), "
         "orientation, exclusion set, grid parity / padding / aspect (hexagonal; all single exclusions are enumerated) and "
-        "centre diameter, ring widths, segments per ring (2..12), radial / azimuthal gaps, per-ring rotations in [0,360] "
-        "or None (keystone); the coordinate grid is built by the harness (sample i at (i - n//2) dx).  Oracle: documented "
+        "centre diameter, ring widths, segments per ring (2..12), radial / azimuthal gaps, per-ring rotations in [-720,1080] degrees (float or int; "
+        "angles are periodic, negative values and whole turns are valid) or None (keystone); the coordinate grid is built by the harness (sample i at (i - n//2) dx).  Oracle: documented "
         "segment count and ids; per-sample coverage count from the returned windows and local masks (<= 1 except on a "
         "shared analytic boundary); hexagonal amp == union; keystone amp inside the union; area of every local mask == "
         "closed-form hexagon / annular-sector area within perimeter*dx, and membership equal to the analytic shape for every sample "
@@ -589,6 +589,9 @@ def check_keystone(case, ctx):
     nseg = sum(case['spr'])
     rots = case['rotation']
     ctx.label('layout:' + case.get('layout', 'C'), 'grid:' + ('radii-on-samples' if case.get('dx') is not None else 'generic'))
+    flat = [q for q in (rots if isinstance(rots, list) else [rots]) if q is not None]
+    ctx.label('rot<0' if any(q < 0 for q in flat) else 'rot>=360' if any(q >= 360 for q in flat) else 'rot-in-[0,360)-or-none',
+              'rot:int' if any(isinstance(q, int) for q in flat) else 'rot:float-or-none')
     ctx.label('rings:%d' % rings, 'rot:' + ('none' if rots is None else 'scalar' if not isinstance(rots, list) else 'list'),
               'parity:' + case['parity'], 'gap0' if gap == 0 else 'gap>0', 'azgap:' + ('same' if case['azimuthal_gap'] is None else 'given'),
               *set('spr:%s' % ('2' if s == 2 else '3' if s == 3 else '4' if s == 4 else '5-12' if s <= 12 else '13+') for s in case['spr']))
@@ -604,6 +607,8 @@ def check_keystone(case, ctx):
                 return True
         return False
     bulge = [_bulge(u, arc) for (_, _, _, _, u, arc) in segs]
+    rl = rots if isinstance(rots, list) else [rots] * rings
+    outside = [rl[j] is not None and not (0 <= rl[j] < 360) for (j, _, _, _, _, _) in segs]
     if any(crosses):
         ctx.label('has-segment-wrapping-past-2pi')
     if any(wide):
@@ -626,6 +631,8 @@ def check_keystone(case, ctx):
     def bucket(i, check):
         """root-cause bucket of a failure of segment i: the two confirmed classes of the pinned tree get one bucket each
         (whatever check exposes them), anything else is named after the check"""
+        if outside[i]:
+            return 'keystone:%s:rotation-outside-[0,360)' % check   # the ring's rotation is negative or a turn or more: the same segments as rotation % 360
         if crosses[i]:
             return 'keystone:seam-crossing'       # unwrapped interval [lo, hi] of the segment has lo <= 2 pi < hi
         if wide[i]:
@@ -701,7 +708,9 @@ def check_keystone(case, ctx):
             q = int(np.argmax(care))
             claim = claims[q]
             b = 'keystone:overlap'
-            if any(crosses[i] for i in claim):
+            if any(outside[i] for i in claim):
+                b = 'keystone:overlap:rotation-outside-[0,360)'
+            elif any(crosses[i] for i in claim):
                 b = 'keystone:seam-crossing'
             elif any(wide[i] for i in claim):
                 b = 'keystone:wide-arc-window'
@@ -726,10 +735,17 @@ def check_keystone(case, ctx):
     return ka
 
 
+# a rotation is an angle: every real number of degrees is valid, below zero and beyond one turn (two turns either way here), as
+# a float or as an integer
+WIDEROT = st.integers(0, 17999).map(lambda v: ((v * 2654435761) % 18000) / 10 - 720.0)
+WIDEROT_INT = st.integers(-720, 1080)
+ROT_SPECIAL = [-10.0, -25.5, -70.0, -90.0, -180.0, -360.0, -0.1, 359.9, 400.0, 720.0, 725.0, -450.0]
+
+
 def strat_keystone(tier):
     # scrambled so that the whole circle is covered although Hypothesis prefers small integers
     anyrot = st.integers(0, 3599).map(lambda v: ((v * 2654435761) % 3600) / 10)
-    rot1 = st.one_of(st.none(), anyrot, anyrot, anyrot, st.sampled_from([0.0, 90.0, 180.0, 270.0, 360.0, 22.5, 45.0, 313.2]))
+    rot1 = st.one_of(st.none(), anyrot, anyrot, WIDEROT, WIDEROT, WIDEROT_INT, st.sampled_from([0.0, 90.0, 180.0, 270.0, 360.0, 22.5, 45.0, 313.2] + ROT_SPECIAL))
 
     common = {'layout': U.layouts, 'second': st.sampled_from([False, False, False, True])}
 
@@ -773,7 +789,7 @@ def check_keystone_tiling(case, ctx):
 
 
 def strat_keystone_opd(tier):
-    rot1 = st.one_of(st.none(), st.integers(0, 3599).map(lambda v: ((v * 2654435761) % 3600) / 10))
+    rot1 = st.one_of(st.none(), st.integers(0, 3599).map(lambda v: ((v * 2654435761) % 3600) / 10), WIDEROT, st.sampled_from(ROT_SPECIAL))
 
     def body(rings):
         return st.fixed_dictionaries({
@@ -1008,7 +1024,7 @@ def strat_polygon(tier):
         'shape': st.tuples(ax, ax).map(list), 'dx': st.sampled_from([1.0, 0.1, 0.037]),
         'sides': st.sampled_from([3, 4, 5, 6, 7, 8, 9, 10, 11, 12, 3, 4, 6]),
         'rad': st.integers(50, 1400).map(lambda v: v / 1000), 'grow': st.integers(1, 400).map(lambda v: v / 1000),
-        'rotation': st.one_of(st.just(0.0), st.sampled_from([0.0, 90.0, 30.0, 45.0, 180.0]), st.integers(-3600, 3600).map(lambda v: v / 10)),
+        'rotation': st.one_of(st.just(0.0), st.sampled_from([0.0, 90.0, 30.0, 45.0, 180.0]), st.integers(-7200, 10800).map(lambda v: v / 10)),
         'center': st.one_of(st.just([0.0, 0.0]), st.tuples(st.integers(-40, 40), st.integers(-40, 40)).map(lambda t: [t[0] / 10, t[1] / 10])),
         **prim_extras(),
     })
@@ -1075,8 +1091,8 @@ def strat_rect(tier):
     return st.fixed_dictionaries({
         'shape': st.tuples(ax, ax).map(list), 'dx': st.sampled_from([1.0, 0.1, 0.037]),
         'w': frac, 'h': st.one_of(st.none(), frac), 'grow': st.integers(1, 400).map(lambda v: v / 1000),
-        'angle': st.one_of(st.just(0.0), st.just(90.0), st.sampled_from([45.0, 30.0, 180.0, -90.0, 270.0]), st.integers(-3600, 3600).map(lambda v: v / 10)),
-        'a': frac, 'b': frac, 'eangle': st.one_of(st.just(0.0), st.sampled_from([90.0, 45.0, 180.0]), st.integers(-3600, 3600).map(lambda v: v / 10)),
+        'angle': st.one_of(st.just(0.0), st.just(90.0), st.sampled_from([45.0, 30.0, 180.0, -90.0, 270.0]), st.integers(-7200, 10800).map(lambda v: v / 10)),
+        'a': frac, 'b': frac, 'eangle': st.one_of(st.just(0.0), st.sampled_from([90.0, 45.0, 180.0]), st.integers(-7200, 10800).map(lambda v: v / 10)),
         **prim_extras(),
     })
 
@@ -1163,7 +1179,7 @@ def strat_spider(tier):
         'shape': st.tuples(ax, ax).map(list), 'dx': st.sampled_from([1.0, 0.1, 0.037]),
         'vanes': st.sampled_from([1, 2, 3, 4, 5, 6, 7, 8]), 'width': st.integers(0, 6000).map(lambda v: v / 1000),    # in samples
         'grow': st.integers(1, 2000).map(lambda v: v / 1000),
-        'rotation': st.one_of(st.just(0.0), st.sampled_from([0.0, 90.0, 45.0, 180.0]), st.integers(-3600, 3600).map(lambda v: v / 10)),
+        'rotation': st.one_of(st.just(0.0), st.sampled_from([0.0, 90.0, 45.0, 180.0]), st.integers(-7200, 10800).map(lambda v: v / 10)),
         'rad': st.booleans(),
         'center': st.one_of(st.just([0.0, 0.0]), st.tuples(st.integers(-40, 40), st.integers(-40, 40)).map(lambda t: [t[0] / 10, t[1] / 10])),
         **prim_extras(),
